@@ -606,6 +606,14 @@ func TestVerifC15(t *testing.T) {
 			enc{cat([]byte{4}, x, y, []byte{0}), "valid-encoding+trailing-byte(66)"}, enc{cat([]byte{0, 4}, x, y), "leading-zero+valid-encoding(66)"},
 			enc{cat([]byte{4, 4}, x, y), "doubled-prefix(66)"}, enc{cat([]byte{6}, x, y), "hybrid-prefix-06"}, enc{cat([]byte{7}, x, y), "hybrid-prefix-07"})
 	}
+	// non-canonical coordinates with a sparse distance from the bound; y + p for the tiny-y points
+	if als, aerr := ref.SparseAliases(); aerr == nil {
+		for _, al := range als {
+			encs = append(encs, enc{append([]byte{4}, append(append([]byte{}, al.X...), al.Y...)...), "non-canonical:" + al.Class})
+		}
+	} else {
+		r.Inconclusive("alias construction: " + aerr.Error())
+	}
 	// off-curve points whose curve-equation defect sits in one limb / one byte of the plain or internal representation
 	for _, np := range ref.NearCurvePoints(rng.Bytes, hk.N(2, 10)) {
 		encs = append(encs, enc{append([]byte{4}, append(ref.B32(np.X), ref.B32(np.Y)...)...), "off-curve:" + np.Class})
